@@ -73,8 +73,8 @@ type lockAnalysis struct {
 	tracked  map[string]bool // named struct types whose fields are tracked
 	accesses []lockAccess
 	calls    []lockCall
-	dynHeld  []lockSet       // held sets at `cmd.Func(...)`
-	dynFuncs map[string]bool // functions stored in the command table
+	dynHeld  []lockSet           // held sets at `cmd.Func(...)`
+	dynFuncs map[string]bool     // functions stored in the command table
 	seq      map[string][]string // function -> lock operations in source order
 	acq      []lockCall          // (function, lock acquired, locks held at that point)
 	exported map[string]bool
@@ -683,7 +683,7 @@ func (x *extractor) genLocks() {
 		}
 		b.WriteString("\n")
 	}
-	b.WriteString("]\n\n/-- lock operations of every function of internal/outputstream, in source order (the lock regions are the atomic steps of the C08 model) -/\ndef streamRegions : List (String × List String) := [\n")
+	b.WriteString("]\n\n/-- operations on messagesMu of every function of internal/outputstream, in source order: its regions are the atomic steps of the C08 model (cacheMu is only ever taken inside them and guards the cache map against concurrent readers, which is C20's matter) -/\ndef streamRegions : List (String × List String) := [\n")
 	var sk []string
 	for k := range a.seq {
 		if strings.HasPrefix(k, "internal/outputstream:") {
@@ -691,11 +691,20 @@ func (x *extractor) genLocks() {
 		}
 	}
 	sort.Strings(sk)
-	for i, k := range sk {
-		fmt.Fprintf(&b, "  (%s, [%s])", leanStr(k), strings.Join(mapStr(a.seq[k], leanStr), ", "))
-		if i+1 < len(sk) {
-			b.WriteString(",")
+	var regionLines []string
+	for _, k := range sk {
+		var ops []string
+		for _, op := range a.seq[k] {
+			if strings.Contains(op, "messagesMu") {
+				ops = append(ops, op)
+			}
 		}
+		if len(ops) > 0 {
+			regionLines = append(regionLines, fmt.Sprintf("  (%s, [%s])", leanStr(k), strings.Join(mapStr(ops, leanStr), ", ")))
+		}
+	}
+	b.WriteString(strings.Join(regionLines, ",\n"))
+	if len(regionLines) > 0 {
 		b.WriteString("\n")
 	}
 	b.WriteString("]\n\nend Robust.Gen.Locks\n")
